@@ -117,6 +117,23 @@ fn gen_c16(tier: &str, rng: &mut Rng, emit: &mut dyn FnMut(Op)) {
     }
     emit(Op::new("scanindex.read", &[b"PKGNAME=a-1\nCATEGORIES=\xe9\n", b"-"]));
     emit(Op::new("scanindex.read", &[b"PKGNAME=a-1\n\xff\nPKGNAME=b-1\n", b"-"]));
+    // very long lines (a pbulk-index line has no length limit): lengths around 64 KiB, a list of
+    // thousands of items, text that LOOKS like a new record exactly where a fixed-size read
+    // would cut, a multi-byte character across that offset
+    for total in [65535usize, 65536, 65537, 70000] {
+        let key = "DESCR_SRC=";
+        let doc = format!("PKGNAME=real-1.0\n{}{}\nCATEGORIES=net\n", key, "x".repeat(total - key.len()));
+        emit(Op::s("scanindex.read", &[&doc, "-"]));
+        let doc2 = format!("PKGNAME=real-1.0\n{}{}PKGNAME=phantom-9.9\nCATEGORIES=net\n", key, "y".repeat(total - key.len()));
+        emit(Op::s("scanindex.read", &[&doc2, "-"]));
+        let doc3 = format!("PKGNAME=real-1.0\n{}{}\u{e9}\u{e9}z\n", key, "z".repeat(total - key.len() - 1));
+        emit(Op::s("scanindex.read", &[&doc3, "-"]));
+    }
+    {
+        let items: Vec<String> = (0..3000).map(|i| format!("dep{}-[0-9]*:../../cat/dep{}", i, i)).collect();
+        let doc = format!("PKGNAME=big-1.0\nSCAN_DEPENDS={}\nALL_DEPENDS={}\nMULTI_VERSION={}\n", items.join(" "), items.join(" "), items.join(" "));
+        emit(Op::s("scanindex.read", &[&doc, "-"]));
+    }
     for _ in 0..(if thorough { 20000 } else { 1500 }) {
         let n = rng.range(1, 5);
         let fault = rng.below(8);
@@ -156,7 +173,9 @@ fn gen_c20(tier: &str, rng: &mut Rng, emit: &mut dyn FnMut(Op)) {
         "+COMMENT ", "+SIZE", "", "+", "+BUILDINFO", "+REQUIRED-BY"] {
         emit(Op::s("metadata.from", &[s]));
     }
-    let vals = ["", "x", " padded \n", "line1\nline2\n", "a\r\nb", "123", " 42\n", "-7", "+8", "abc", "12x", "9223372036854775808", "é"];
+    let vals = ["", "x", " padded \n", "line1\nline2\n", "a\r\nb", "123", " 42\n", "-7", "+8", "abc", "12x", "9223372036854775808", "é",
+        // values that are nothing but white space of some kind are EMPTY after trimming
+        "\u{b}", "\u{85}", "\u{a0}", "\u{2028}", "\u{3000}", " \u{a0} ", "\t\u{2003}\n", "\u{c}\r", "\u{feff}", "\u{200b}", "\u{a0}x\u{a0}"];
     for i in 0..14usize {
         for v in vals {
             emit(Op::s("metadata.read", &[&i.to_string(), v]));
@@ -173,8 +192,10 @@ fn gen_c20(tier: &str, rng: &mut Rng, emit: &mut dyn FnMut(Op)) {
         emit(Op::s("metadata.read", &refs));
     }
     // directory trees
-    let names: [&[u8]; 12] = [b"foo-1.0", b"bar-2.0nb3", b"py312-baz-0.1", b"a-b-c-1", b"nodash", b"-", b"x-", b"-1",
-        b"caf\xc3\xa9-1.0", b"bad\xff-1", b"+COMMENT", b"foo-1.0nb1"];
+    let names: [&[u8]; 18] = [b"foo-1.0", b"bar-2.0nb3", b"py312-baz-0.1", b"a-b-c-1", b"nodash", b"-", b"x-", b"-1",
+        b"caf\xc3\xa9-1.0", b"bad\xff-1", b"+COMMENT", b"foo-1.0nb1",
+        // names a directory listing filter might single out: leading dot, blanks, '~', '#'
+        b".hidden-tool-2.0nb1", b"..-1", b".x", b"...", b" lead-1.0", b"tmp~-1#"];
     for _ in 0..(if thorough { 3000 } else { 300 }) {
         let k = rng.range(0, 8);
         let mut pool: Vec<&[u8]> = names.to_vec();
